@@ -43,8 +43,8 @@ def plan(tier, seed):
         t += wp.enum_tasks(5, 64, 1, 2, seed)
         t += wp.member_tasks(5, 6, 16, seed, plain_graph_every=9)
         t += wp.member_tasks(6, 8, 96, seed, plain_graph_every=9)
-    for n, cnt in ((4, 8), (5, 8), (6, 24)):
-        t += wp.neighbour_tasks(n, cnt if tier == "quick" else cnt * 12, 16, seed, per_anchor=24 if tier == "quick" else 80)
+    for n, cnt, per in ((4, 8, 24), (5, 8, 24), (6, 32, 120)):
+        t += wp.neighbour_tasks(n, cnt if tier == "quick" else cnt * 12, 16, seed, per_anchor=per if tier == "quick" else 200)
     random.Random(seed).shuffle(t)
     return t
 
